@@ -524,6 +524,33 @@ def r08_3(chk, sd, inv):
     conj_ok = any(call_name(t) == ".conjugate" for e in ev.events if e.value is not None
                   for t in find_atoms(e.value, lambda t: t[0] == "call"))
     chk.ob("R08.3", INV, q, "the degree-l coefficient enters conjugated", conj_ok)
+    # the bilinear coupling itself:  p_m = sum_{m1} C * c(l1, m1) * c(l2, m - m1)   and   P = sum_m p_m * conj(c(l, m)),
+    # every coupling coefficient that is a number other than zero contributing (zero / NaN are the only ones skipped)
+    CG = P.atom(cl[0].value.as_atom())
+    c1 = P.atom(("sub", coeffs, (L1 * (L1 + 1) + m1var,)))
+    c2 = P.atom(("sub", coeffs, (L2 * (L2 + 1) + mvar - m1var,)))
+    c0 = P.atom(("sub", coeffs, (L0 * (L0 + 1) + mvar,)))
+    inner = [e for e in ev.events if e.kind == "assign" and e.extra.get("aug") and len(e.loops) == 2 and e.extra.get("delta") is not None]
+    outer = [e for e in ev.events if e.kind == "assign" and e.extra.get("aug") and len(e.loops) == 1 and e.extra.get("delta") is not None]
+    okin = len(inner) == 1 and inner[0].extra["aug"] == "Add" and inner[0].extra["delta"] == CG * c1 * c2
+    okout = False
+    if len(outer) == 1 and len(inner) == 1 and outer[0].extra["aug"] == "Add":
+        d_ = outer[0].extra["delta"]
+        acc = [a_ for a_ in find_atoms(d_, lambda a_: a_[0] == "after" and a_[1] == inner[0].name)]
+        conj = P.atom(("call", P.atom(("attr", c0, "conjugate")), ()))
+        okout = len(acc) == 1 and (d_ == P.atom(acc[0]) * conj or d_ == P.atom(acc[0]) * P.atom(("call", P.name("numpy.conj"), (c0,))))
+    chk.ob("R08.3", INV, q, "p_m accumulates C(l1 m1 l2 m-m1 | l m) * c(l1, m1) * c(l2, m - m1) over m1, and P accumulates p_m * conj(c(l, m)) over m "
+           "(sums of products, nothing divided or subtracted)", okin and okout, fingerprint="bilinear-form",
+           found=f"inner {[str(e.extra['delta'])[:120] for e in inner]} outer {[str(e.extra['delta'])[:100] for e in outer]}")
+    skips = [e for e in ev.events if e.kind == "continue" and len(e.loops) == 2]
+    okskip = True
+    for e in skips:
+        c_, pol = e.guards[-1]
+        ca_ = c_.as_atom()
+        parts = {x.key() for x in ca_[1]} if ca_ and ca_[0] == "or" else {c_.key()}
+        okskip = okskip and pol and parts <= {f"(eq 0 {CG})", f"(eq {CG} 0)", f"(ne {CG} {CG})", f"(not (eq {CG} {CG}))"}
+    chk.ob("R08.3", INV, q, "a term is skipped only when its coupling coefficient is zero (or not a number)", okskip, fingerprint="skip-zero-only",
+           found=[str(e.guards[-1][0])[:140] for e in skips][:1])
     # p_invariants_c loops
     q = "p_invariants_c"
     ev = inv.ev(q)
@@ -647,9 +674,109 @@ def r08_3(chk, sd, inv):
             bad.append(str(ix))
         else:
             worst = max(worst, best)
+    racah_formula(chk, inv)
     chk.ob("R08.3", INV, "clebsch", f"the largest factorial index reachable for l <= {eff} ({worst}) is inside the table "
            f"(length {len(vals)})", not bad and worst < len(vals) and worst >= 3 * eff + 1 - 1,
            expected=f"3*{eff}+1 = {3 * eff + 1} < {len(vals)}", found=f"{worst}; unresolved: {bad}")
+
+
+def racah_formula(chk, inv):
+    """clebsch(j1, m1, j2, m2, j, m) with doubled quantum numbers against the Racah formula (Brink & Satchler, the reference the source
+    cites), read term by term with C integer division kept as such (H(x) = x / 2 on ints):
+
+        <j1 m1 j2 m2 | j m> = [m = m1 + m2] * sqrt( (j + 1) * H(j1+j2-j)! H(j1+j-j2)! H(j2+j-j1)! / (H(j1+j2+j) + 1)! )
+                              * sqrt( H(j1+m1)! H(j1-m1)! H(j2+m2)! H(j2-m2)! H(j+m)! H(j-m)! )
+                              * sum_k (-1)^k / ( k! (H(j1+j2-j) - k)! (H(j1-m1) - k)! (H(j2+m2) - k)! (H(j-j2+m1) + k)! (H(j-j1-m2) + k)! )
+
+    k from max(0, -H(j-j2+m1), -H(j-j1-m2)) to min(H(j1+j2-j), H(j1-m1), H(j2+m2)); zero outside the selection rules."""
+    q = "clebsch"
+    ev = inv.ev(q, cdiv=True)
+    j1, m1, j2, m2, j, m = [P.name(x) for x in ev.param_names]
+    H = lambda t: P.atom(("bin", "CDiv", t, P.const(2)))
+    F = lambda t: P.atom(("sub", P.name("factorial"), (t,)))
+    ab = lambda t: P.atom(("call", P.name("abs"), (t,)))
+    zero_ret = [e for e in ev.returns if e.value.key() == "0" and e.guards]
+    rules = set()
+    for e in zero_ret:
+        c, pol = e.guards[-1]
+        ca = c.as_atom()
+        if ca and ca[0] == "or" and pol:
+            rules |= {x.key() for x in ca[1]}
+        else:
+            rules.add(("" if pol else "not ") + c.key())
+    want_rules = {f"(lt {j1} {ab(m1)})", f"(lt {j2} {ab(m2)})", f"(lt {j} {ab(m)})", f"(lt {j1} 0)", f"(lt {j2} 0)", f"(lt {j} 0)",
+                  f"(lt {j} {ab(j1 - j2)})", f"(lt {j1 + j2} {j})", f"not (eq {m} {m1 + m2})"}
+    parity = [r for r in rules if r.startswith("not (and (")]
+    chk.ob("R08.3", INV, q, "selection rules: zero for |m_i| > j_i, a negative j, a violated triangle condition |j1 - j2| <= j <= j1 + j2, or m != m1 + m2",
+           want_rules <= rules, fingerprint="racah:selection", expected=sorted(want_rules), found=sorted(want_rules - rules)[:3])
+    wp = {P.atom(("eq", 2 * H(j1 - m1), j1 - m1)).key(), P.atom(("eq", 2 * H(j2 + m2), j2 + m2)).key(), P.atom(("eq", 2 * H(j1 + j2 - j), j1 + j2 - j)).key(),
+          P.atom(("eq", j1 - m1, 2 * H(j1 - m1))).key(), P.atom(("eq", j2 + m2, 2 * H(j2 + m2))).key(), P.atom(("eq", j1 + j2 - j, 2 * H(j1 + j2 - j))).key()}
+    okpar = False
+    for r_ in parity:
+        inner = [e for e in zero_ret if ("not " + e.guards[-1][0].key()) == r_][0].guards[-1][0].as_atom()
+        got = {x.key() for x in inner[1]}
+        okpar = len(got) == 3 and got <= wp
+    chk.ob("R08.3", INV, q, "zero unless j1 - m1, j2 + m2 and j1 + j2 - j are even (the halves are exact)", okpar, fingerprint="racah:parity",
+           found=parity[:1])
+    # the sum
+    a_, b_, c_, d_, e_ = H(j1 - m1), H(j - j2 + m1), H(j2 + m2), H(j - j1 - m2), H(j1 + j2 - j)
+    terms = [x for x in ev.events if x.kind == "assign" and x.name == "res" and x.loops]
+    chk.need(len(terms) == 1, f"{q}: accumulation of the Racah sum not found")
+    t = terms[0]
+    lp = t.loops[-1]
+    k = lp.index
+    lc = [x for x in find_atoms(t.value, lambda x: x[0] == "lc" and x[1] == "res")]
+    ph = [x for x in find_atoms(t.value, lambda x: x[0] == "lc" and x[1] != "res")]
+    okterm = False
+    if len(lc) == 1 and len(ph) == 1:
+        delta = t.value - P.atom(lc[0])
+        den = F(e_ - k) * F(d_ + k) * F(b_ + k) * F(a_ - k) * F(c_ - k) * F(k)
+        okterm = delta == P.atom(ph[0]) / den
+    chk.ob("R08.3", INV, q, "each term of the sum is phase / ( k! (H(j1+j2-j)-k)! (H(j1-m1)-k)! (H(j2+m2)-k)! (H(j-j2+m1)+k)! (H(j-j1-m2)+k)! )", okterm,
+           node=t.node, fingerprint="racah:term", found=str(t.value)[:200])
+    mx = lambda *xs: P.atom(("call", P.name("max"), xs))
+    mn = lambda *xs: P.atom(("call", P.name("min"), xs))
+    lo_ok = lp.lo is not None and lp.lo.key() in (mx(mx(-b_, -d_), P.const(0)).key(), mx(-b_, -d_, P.const(0)).key(), mx(P.const(0), -b_, -d_).key())
+    hi_ok = lp.hi is not None and lp.hi.key() in ((mn(mn(a_, c_), e_) + 1).key(), (mn(a_, c_, e_) + 1).key())
+    chk.ob("R08.3", INV, q, "k runs over all values for which no factorial argument is negative: max(0, -H(j-j2+m1), -H(j-j1-m2)) .. min(H(j1-m1), H(j2+m2), "
+           "H(j1+j2-j)) inclusive", lo_ok and hi_ok, fingerprint="racah:range", found=f"range({lp.lo}, {lp.hi})"[:200])
+    flips = [x for x in ev.events if x.kind == "assign" and x.loops and x.loops[-1].k == lp.k and ph and x.name == ph[0][1]]
+    okflip = len(flips) == 1 and (flips[0].value + P.atom(ph[0])).is_zero()
+    init = ph[0][3] if ph else None
+    ia = init.as_atom() if init is not None else None
+    okinit = bool(ia and ia[0] == "ite" and ia[2] == P.const(1) and ia[3] == P.const(-1) and ia[1].key() in
+                  (P.atom(("eq", 2 * P.atom(("bin", "CDiv", lp.lo, P.const(2))), lp.lo)).key(), P.atom(("eq", lp.lo, 2 * P.atom(("bin", "CDiv", lp.lo, P.const(2))))).key()))
+    chk.ob("R08.3", INV, q, "the phase is (-1)^k: +1 for an even first k, -1 for an odd one, and it alternates from term to term", okflip and okinit,
+           fingerprint="racah:phase", found=f"initial {str(init)[:120]}; update {[str(x.value)[:60] for x in flips]}")
+    over = [x for x in ev.events if x.kind == "assign" and x.name == "res" and not x.loops and x.guards and x.value.const_value() is not None
+            and x.value.const_value() != 0]
+    chk.ob("R08.3", INV, q, "the sum is replaced by a constant only when its range is empty (upper limit below the lower one)",
+           all(x.guards[-1][1] and x.guards[-1][0].key() == P.atom(("lt", lp.hi - 1, lp.lo)).key() for x in over), fingerprint="racah:empty-range",
+           found=[str(x.guards[-1][0])[:100] for x in over][:1])
+    # the prefactor: a product of square roots, each factorial once
+    ret = ev.returns[-1].value
+    num = [F(e_), F(H(j1 + j - j2)), F(H(j2 + j - j1)), F(H(j1 + m1)), F(a_), F(c_), F(H(j2 - m2)), F(H(j + m)), F(H(j - m)), j + 1]
+    den_ = [F(H(j1 + j2 + j) + 1)]
+    sq = lambda t_: P.atom(("call", P.name("sqrt"), (t_,)))
+    want = P.const(1)
+    for x in num:
+        want = want * sq(x)
+    for x in den_:
+        want = want / sq(x)
+    roots = [x for x in find_atoms(ret, lambda x: x[0] == "call" and call_name(x) == "sqrt")]
+    pref = P.const(1)
+    rest = ret
+    okpref = False
+    try:
+        q_ = ret / want
+        # what is left after dividing the expected prefactor out is the sum alone: no square root and no factorial remains
+        okpref = not find_atoms(q_, lambda x: x[0] == "call" and call_name(x) == "sqrt") and "factorial" not in q_.key() \
+            and q_.as_atom() is not None and q_.as_atom()[0] in ("ite", "after", "lc")
+    except Exception:      # noqa: BLE001
+        okpref = False
+    chk.ob("R08.3", INV, q, "the prefactor is sqrt( (j+1) H(j1+j2-j)! H(j1+j-j2)! H(j2+j-j1)! / (H(j1+j2+j)+1)! ) * sqrt( H(j1+m1)! H(j1-m1)! H(j2+m2)! H(j2-m2)! "
+           "H(j+m)! H(j-m)! ), multiplied onto the sum", okpref and len(roots) == 11, fingerprint="racah:prefactor", expected=str(want)[:200],
+           found=f"{len(roots)} square roots: {str(ret)[-260:]}")
 
 
 def r08_4(chk, sd):
